@@ -24,6 +24,7 @@ import (
 	"os"
 	"os/exec"
 	"path/filepath"
+	"regexp"
 	"strings"
 	"syscall"
 	"time"
@@ -158,8 +159,18 @@ func opOf(line string, w *world) string {
 	if len(f) < 3 {
 		return line
 	}
-	return f[1] + " " + strings.TrimPrefix(strings.ReplaceAll(f[2], w.cache, "$CACHE"), "$CACHE/llgo/build/")
+	p := strings.TrimPrefix(strings.ReplaceAll(f[2], w.cache, "$CACHE"), "$CACHE/llgo/build/")
+	p = strings.ReplaceAll(p, filepath.Dir(w.dir), "$WORLD") // the world's directory carries the process id
+	return f[1] + " " + fingerprintName.ReplaceAllString(tmpName.ReplaceAllString(p, "${1}N"), "FP")
 }
+
+// fingerprintName matches a cache entry's fingerprint: a function of the
+// world's (per-process) directory among other things, not of the schedule.
+var fingerprintName = regexp.MustCompile(`[0-9a-f]{64}`)
+
+// tmpName matches the random part of the temporary names the cache code draws
+// (os.CreateTemp): not part of a schedule's identity.
+var tmpName = regexp.MustCompile(`(tmp-?|manifest-|pkg-)[0-9]+`)
 
 // race runs the step; it returns a violation class and detail ("" if none).
 func (w *world) race(si int, st Step, ch *sim.Choices, res *driver.Result, mix func(string)) (string, string, []string) {
